@@ -196,6 +196,8 @@ def cases(rng, tier):
     for i, pa in enumerate(([1], [2], [3], [1, 3], [5], [6])):
         out.append(dict(kind="conn", relay=bool(i % 2), leader=bool(i % 3), recs=burst, chunk=["all", "frames", "rand"][i % 3],
                         select_after=[0, 99][i % 2], mut=None, mseed=60 + i, pause_at=pa))
+        out.append(dict(out[-1], eager=True, chunk="frames", select_after=0))
+        out.append(dict(out[-1], eager=True, chunk="rand"))
         out.append(dict(kind="sel", chunks=[[10**6], [40], [10**6]][i % 3], turn_each_chunk=bool(i % 2), mseed=60 + i,
                         gens=[dict(lq=burst[:2] if i % 2 else [], fq=[], ll=burst[2:] if i % 2 else burst,
                                    fl=[["data", 0, 3, "01"], ["data", 1, 3, "02"], ["data", 2, 3, "03"], ["close", 3, 3]],
@@ -703,11 +705,15 @@ def run_conn(case):
             select_error.append(type(e).__name__)
         do_resume()
 
-    for ci, c in enumerate(chunks):
+    eager = bool(case.get("eager"))      # a transport that has read ahead (TLS-like wrappers): see below
+    early = set()
+
+    def deliver(ci, c):
+        nonlocal dead, dead_at, delivered_before_select
         lines.append("data " + hx(c))
         if dead:
             exp.append("dead")
-            continue
+            return
         lost_before = t.lost
         try:
             p.dataReceived(c)
@@ -723,6 +729,21 @@ def run_conn(case):
             dead_at = ci
         if not selected:
             delivered_before_select = max(delivered_before_select, len(got))
+
+    for ci, c in enumerate(chunks):
+        if ci in early:
+            continue
+        deliver(ci, c)
+        if eager and paused and not dead:
+            # pause is advisory for bytes the transport has already read: the next chunk is handed over WHILE the
+            # connection is paused, and the one after it synchronously from inside transport.resumeProducing()
+            tags.append("conn:eager-transport")
+            if ci + 1 < len(chunks):
+                early.add(ci + 1)
+                deliver(ci + 1, chunks[ci + 1])
+            if ci + 2 < len(chunks) and not dead:
+                early.add(ci + 2)
+                t.on_resume = (lambda j=ci + 2: deliver(j, chunks[j]))
         do_resume()
         if not dead and not selected and conn.add_candidate.called:
             nsel += 1
@@ -793,6 +814,9 @@ def run_conn(case):
             viol.append(("start-reject", f"mut={mut}: something was processed on a connection with a diverging start"))
     elif dead_at is not None and automat_state(p._record._framer, 'm') != "want_frame":
         viol.append(("start-reject", f"mut={mut}: dropped at chunk {dead_at} although the start had not (yet) diverged"))
+    if eager:
+        # judged by the oracle only: a delivery nested inside `resume` has no counterpart in the line protocol
+        return Result([], [], viol, tags)
     return Result(lines, exp, viol, tags)
 
 
@@ -932,8 +956,13 @@ class PausableTransport(FakeTransport):
         self.paused = True
         self.pauses += 1
 
+    on_resume = None
+
     def resumeProducing(self):
         self.paused = False
+        f, self.on_resume = self.on_resume, None
+        if f is not None:
+            f()          # bytes that were waiting are delivered from inside resumeProducing(), as some transports do
 
     def stopProducing(self):
         self.paused = True
